@@ -20,6 +20,13 @@ the registries must hold the survivors only, and the released names must be rede
            args: plain values, ['#t', ...] a tuple, ['@', kind, index] an object of the system;
            mode 0: an iterator result is consumed; 1: only its first element is taken, then it is dropped
   keep     [[kind, index], ...]       kind in 'D' (index into doms), 'C', 'M', 'R'
+
+      c05_tidy_release   [dk, doms, cplxs, macros, rxns, queries, keep, tidy] -> as c05_query_release
+  tidy     [[mode per macrostate], [[mode of the reactants, mode of the products] per reaction]]: the member containers
+           are the caller's own and the caller goes on using them after the construction -
+           0 a list, only dropped; 1 list.clear() (what show_memory() recommends); 2 pop(); 3 append(another object);
+           4 l[:] = [another object]; 5 a tuple; 6 del l[0]; 7 reverse().  The container keeps (and reports) the members it
+           was built from and nothing else.
 """
 import gc, weakref
 
@@ -94,7 +101,44 @@ def register(op):
             if was:
                 gc.enable()
 
-    def run(dk, doms, cplxs, macros, rxns, queries, keep):
+    @op("c05_tidy_release")
+    def _(arg):
+        dk, doms, cplxs, macros, rxns, queries, keep, tidy = arg
+        was = gc.isenabled()
+        fresh(collect=False)
+        gc.disable()
+        try:
+            return run(dk, doms, cplxs, macros, rxns, queries, keep, tidy)
+        finally:
+            fresh()
+            if was:
+                gc.enable()
+
+    def handed_over(make, lists, modes, pool):
+        """make(*containers), the containers built by the caller as in `lists`; afterwards the caller goes on using
+        its own containers as in `modes` (see the module docstring) and drops them"""
+        args = [tuple(l) if m == 5 else list(l) for l, m in zip(lists, modes)]
+        o = make(*args)
+        for l, m in zip(args, modes):
+            other = next((x for x in pool if not any(x is y for y in l)), pool[0])
+            if m == 1:
+                l.clear()
+            elif m == 2:
+                l.pop()
+            elif m == 3:
+                l.append(other)
+            elif m == 4:
+                l[:] = [other]
+            elif m == 6:
+                del l[0]
+            elif m == 7:
+                l.reverse()
+            other = None
+        l = None
+        del args
+        return o
+
+    def run(dk, doms, cplxs, macros, rxns, queries, keep, tidy=None):
         objs = {"D": [], "C": [], "M": [], "R": []}
         byname = {}
         for name, length in doms:
@@ -109,11 +153,18 @@ def register(op):
             else:
                 objs["C"].append(CPLX[k](sq, list(sst), name=name))
             del sq
-        for ms, k in macros:
-            objs["M"].append(MAC[k]([objs["C"][i] for i in ms]))
-        for re, pr, rtype, over, k in rxns:
+        for j, (ms, k) in enumerate(macros):
+            if tidy is None:
+                objs["M"].append(MAC[k]([objs["C"][i] for i in ms]))
+            else:
+                objs["M"].append(handed_over(MAC[k], [[objs["C"][i] for i in ms]], [tidy[0][j]], objs["C"]))
+        for j, (re, pr, rtype, over, k) in enumerate(rxns):
             pool = objs["C"] if over == "c" else objs["M"]
-            objs["R"].append(RXN[k]([pool[i] for i in re], [pool[i] for i in pr], rtype))
+            if tidy is None:
+                objs["R"].append(RXN[k]([pool[i] for i in re], [pool[i] for i in pr], rtype))
+            else:
+                objs["R"].append(handed_over(lambda a, b: RXN[k](a, b, rtype), [[pool[i] for i in re], [pool[i] for i in pr]],
+                                             tidy[1][j], pool))
         pool = None
         del byname
         if len({id(o) for v in objs.values() for o in v}) != sum(len(v) for v in objs.values()):
@@ -181,8 +232,26 @@ def register(op):
         for kind, i in keep:
             mark(kind, i)
         kept = [objs[kind][i] for kind, i in keep]
-        objs = None
         bad = []
+        if tidy is not None:
+            # what the containers say about their members is what they were built from, whatever became of the
+            # caller's own lists
+            def members(o, attr):
+                try:
+                    return sorted(x.name for x in getattr(o, attr))
+                except Exception as e:
+                    return type(e).__name__
+            for j, (ms, k) in enumerate(macros):
+                got, want = members(objs["M"][j], "complexes"), sorted(names["C"][i][1] for i in ms)
+                if got != want:
+                    bad.append(f"{names['M'][j][0].__name__} {names['M'][j][1]!r}: complexes are {got}, built from {want}")
+            for j, (re, pr, rtype, over, k) in enumerate(rxns):
+                src = names["C" if over == "c" else "M"]
+                for attr, idx in (("reactants", re), ("products", pr)):
+                    got, want = members(objs["R"][j], attr), sorted(src[i][1] for i in idx)
+                    if got != want:
+                        bad.append(f"{names['R'][j][0].__name__} {names['R'][j][1]!r}: {attr} are {got}, built from {want}")
+        objs = None
         for kind in "DCMR":
             for i, r in enumerate(refs[kind]):
                 o = r()
